@@ -180,22 +180,58 @@ def fault_oracle(c, toks, api=False):
     if toks and toks[0].startswith("CRASH"):
         return ("cpq-fault-crash", fdescribe(c))
     v = [int(t) for t in toks if t.lstrip("-").isdigit()]
-    ops = [c[i] for i in range(0, len(c) - 1, 2)]
+    ops = [(c[i], c[i + 1]) for i in range(0, len(c) - 1, 2)]
     pos = 0
-    k = 0
-    for op in ops:
+    bag = {}            # contents the queue must hold: successfully pushed minus successfully popped (property: none lost, none twice)
+
+    def check_dump(pos):
+        n = v[pos]
+        data = v[pos + 2: pos + 2 + n]
+        have = {}
+        for x in data:
+            have[x] = have.get(x, 0) + 1
+        want = {k: n_ for k, n_ in bag.items() if n_}
+        if have != want:
+            return ("cpq-fault-element-lost-or-duplicated", "%s: after the batch the queue holds %s but the answered pushes/pops leave %s — an element was lost or duplicated by an operation "
+                    "that shared a batch with a throwing one" % (fdescribe(c), sorted(data), sorted(x for k, n_ in want.items() for x in [k] * n_)))
+        return None
+    popped = []
+
+    def settle():
+        for out in popped:
+            if not bag.get(out):
+                return ("cpq-fault-element-lost-or-duplicated", "%s: a pop returned %d, which is not in the queue (popped twice or never pushed)" % (fdescribe(c), out))
+            bag[out] -= 1
+        del popped[:]
+        return None
+    for op, val in ops:
         if op == 9:
             if pos < len(v) and not api:        # state dump after every batch: size mark data[size] -7
+                r = settle() or check_dump(pos)
+                if r:
+                    return r
                 pos += 2 + v[pos] + 1
             continue
         if pos + 1 >= len(v):
             return ("cpq-fault-bad-output", fdescribe(c))
-        st = v[pos]
+        st, out = v[pos], v[pos + 1]
         pos += 2
         if st == 0:
             return ("cpq-pop-assign-throws", "%s: an operation of the batch was never answered" % fdescribe(c))
         if op in (1, 2) and st == 3:   # (a push whose copy throws legitimately reports an exception to its own caller)
             return ("cpq-exception-to-wrong-op", "%s: an operation that did not throw received an exception" % fdescribe(c))
+        if op in (1, 3) and st == 1:
+            bag[val] = bag.get(val, 0) + 1
+        if op in (2, 4) and st == 1:
+            popped.append(out)          # operations of one batch overlap: a pop may return an element pushed later in the same batch
+        if api:
+            r = settle()
+            if r:
+                return r
+    if pos < len(v) and (api or ops and ops[-1][0] != 9):
+        r = settle() or check_dump(pos)
+        if r:
+            return r
     return None
 
 
